@@ -70,6 +70,7 @@ func runC13(r *rt.Run, tier string) {
 	}
 	var iterTask *rt.Task
 	var readers []*rt.Task
+	var ents []*deb.ArEntry // every entry handed out, of both archives
 	returned := 0
 	nextOverlapped := false
 	retriedNext := false
@@ -164,7 +165,23 @@ func runC13(r *rt.Run, tier string) {
 	// Read/Seek/Len) and may have been read sequentially before (magic sniffed,
 	// checksummed): ReadAt-based iteration must not care
 	var ra io.ReaderAt = disk
-	if t.Bool(1, 4, "c13.seqflavour") {
+	if !faulty && !transient && t.Bool(1, 5, "c13.window") {
+		// the archive is a window (io.SectionReader) into a larger device that
+		// holds other members before and after it - a .deb inside a disk image,
+		// a nested archive read through its member's Data: the window's end is
+		// the end of the archive
+		pre := renderAr(genArMembers(t, r, 2))
+		post := renderAr(genArMembers(t, r, 2))[8:] // headers and data without the global magic
+		if len(img)%2 == 1 {
+			post = append([]byte{'\n'}, post...)
+		}
+		big := append(append(append([]byte{}, pre...), img...), post...)
+		disk = simdisk.New(r, "device", big)
+		disk.DrawProfile()
+		ra = io.NewSectionReader(disk, int64(len(pre)), int64(len(img)))
+		prof += "/window"
+		r.Probe("archive-is-a-window-into-a-larger-device")
+	} else if t.Bool(1, 4, "c13.seqflavour") {
 		s := simdisk.Seq{Disk: disk}
 		buf := make([]byte, []int{8, 64, len(img) + 1}[t.Draw(3, "c13.sniff")])
 		s.Read(buf)
@@ -215,6 +232,7 @@ func runC13(r *rt.Run, tier string) {
 				r.Violate("C13/metadata-mismatch", prof+"/data-size", "member %d: Data reader missing or of wrong size", j)
 				continue
 			}
+			ents = append(ents, e)
 			if !transient {
 				readers = append(readers, r.Go(fmt.Sprintf("R%d", j), readerTask(j, e, m)))
 			}
@@ -249,6 +267,9 @@ func runC13(r *rt.Run, tier string) {
 					return
 				}
 				got2 = append(got2, fmt.Sprintf("%s/%d", e.Name, e.Size))
+				if e.Data != nil {
+					ents = append(ents, e)
+				}
 			}
 		})
 	}
@@ -282,6 +303,34 @@ func runC13(r *rt.Run, tier string) {
 	}
 	if disk.EOFEager && r.Stats["disk.eager_eof_returned"] > 0 {
 		r.Probe("eof-eager-full-read-at-end-of-file")
+	}
+
+	// every member's reader is its own: a position set on one is not seen on any
+	// other (empty members included, members of the other archive included)
+	if !faulty && !transient && len(ents) > 1 {
+		task := r.Solo("seek-independence", func() {
+			for i, e := range ents {
+				e.Data.Seek(int64(3+2*i), io.SeekStart)
+			}
+			for i, e := range ents {
+				if p, err := e.Data.Seek(0, io.SeekCurrent); err != nil || p != int64(3+2*i) {
+					r.Violate("C13/readers-not-independent", "seek-position", "reader %d (member %q, %d bytes) was positioned at %d; after positioning the other members' readers it stands at %d (err=%v)", i, e.Name, e.Size, 3+2*i, p, err)
+					return
+				}
+			}
+			for i, e := range ents {
+				e.Data.Seek(0, io.SeekStart)
+				if b, err := io.ReadAll(e.Data); err != nil || int64(len(b)) != e.Size {
+					r.Violate("C13/wrong-bytes", "ReadAll/after-seeks", "reader %d (member %q): %d bytes, err=%v, want %d", i, e.Name, len(b), err, e.Size)
+					return
+				}
+			}
+		})
+		if task.Panic != nil {
+			r.Violate("C13/panic", "seek-independence", "panic: %v\n%s", task.Panic, trimStack(task.PanicStack))
+			return
+		}
+		r.Probe("seek-positions-of-all-readers-compared")
 	}
 
 	// how the iteration must have ended
@@ -352,5 +401,5 @@ func init() {
 		},
 		Assumptions: []string{"per-operation equality with the sequential member-list model is the complete check because iterator and member readers are independent objects over one immutable ReaderAt (no linearizability search needed)"},
 	})
-	propProbes["C13"] = []string{"zero-length-member", "odd-member-followed-by-another", "16-byte-name", "third-member-after-an-odd-one", "eof-eager-full-read-at-end-of-file", "reader-op-overlapped-a-Next", "odd-last-member-without-pad", "blank-numeric-column", "data-looks-like-header", "name-with-trailing-slash", "name-with-interior-slash", "zero-padded-numeric-columns", "Next-retried-after-transient-error", "reader-with-sequential-state", "two-archives-iterated-concurrently"}
+	propProbes["C13"] = []string{"archive-is-a-window-into-a-larger-device", "seek-positions-of-all-readers-compared", "zero-length-member", "odd-member-followed-by-another", "16-byte-name", "third-member-after-an-odd-one", "eof-eager-full-read-at-end-of-file", "reader-op-overlapped-a-Next", "odd-last-member-without-pad", "blank-numeric-column", "data-looks-like-header", "name-with-trailing-slash", "name-with-interior-slash", "zero-padded-numeric-columns", "Next-retried-after-transient-error", "reader-with-sequential-state", "two-archives-iterated-concurrently"}
 }
